@@ -29,8 +29,14 @@ class Durable:
         self.crash_at = None      # int / SInt: number of the operation that does not complete
         self.armed = False
         self.preempt = None       # optional callable(label) before every durable operation
+        self.preempt_reads = False  # also before every store read (get / iterator)
         self.log = []
         self.phase = ''           # set by harnesses to label where a durable operation happens
+
+    def read(self, detail=''):
+        '''A store read: a preemption point only (never a crash point, not counted).'''
+        if self.preempt_reads and self.preempt is not None:
+            self.preempt(f'read:{detail}')
 
     def op(self, kind, detail=''):
         '''Returns True if the operation completes, False if the process dies in it.'''
@@ -75,6 +81,7 @@ class MemStore:
             self.items.append((k, v))
 
     def get(self, k):
+        self.durable.read(self.name)
         n = self._find(k)
         return self.items[n][1] if n >= 0 else None
 
@@ -87,6 +94,7 @@ class MemStore:
         return _Batch(self)
 
     def iterator(self, prefix=b'', reverse=False):
+        self.durable.read(self.name)
         n = len(prefix)
         out = [(k, v) for k, v in self.items if len(k) >= n and k[:n] == prefix]
         _sort_items(out)
@@ -351,6 +359,16 @@ def _register_native_crash():
                 return real_put(k, v)
             self.put = put
             self.write_batch = lambda: _WB(real_wb(), durable, name)
+            real_get, real_it = self.get, self.iterator
+
+            def get(k):
+                durable.read(name)
+                return real_get(k)
+
+            def iterator(*a, **kw):
+                durable.read(name)
+                return real_it(*a, **kw)
+            self.get, self.iterator = get, iterator
 
     Crashleveldb.__module__ = storage.__name__
     storage.Crashleveldb = Crashleveldb
